@@ -96,6 +96,8 @@ def main(argv):
                 # (ii) well-formed and denotes the same data, for every value the interpreter can hold
                 if im.get("json") == "ERR":
                     bad = ("(json v) fails", "ERR", "a JSON text")
+                elif inp.startswith("W") and im.get("stable") != "1":
+                    bad = ("an encoding is a value: the bytes of (json v) / (msgpack v) after later values were encoded and decoded", "changed", "unchanged")
                 elif not same_by_value(im.get("stdv"), sp.get("tree")):
                     bad = ("tree read from (json v) by encoding/json (numbers by value)", im.get("stdv"), sp.get("tree"))
                 # (iii) round trips, on the domain of the property text
